@@ -9,6 +9,7 @@ Not decided: that the fractions are the true arc-length fractions (C06), roundin
 import ast
 from svtstatic import poly
 from svtstatic.values import Closure
+from svtstatic.interp import Env
 from .common import *
 
 PROPERTY = 'C05'
@@ -24,9 +25,17 @@ def mk_path(it, lengths=True):
         ls = [Rat.sym('l%d' % k) for k in range(N - 1)]
         ls.append(1 - sum(ls, Rat.const(0)))          # the fractions are normalised: they sum to 1
         poly.POSITIVE.update({'l%d' % k for k in range(N - 1)})
+        # a CONSISTENT, fresh cache (whatever helper the readers use to make sure the table is there finds nothing to do, and a
+        # recomputation through the hooked segment lengths l_k*Ltot reproduces the very same table)
         p.attrs['_lengths'] = list(ls)
         p.attrs['_length'] = Rat.sym('Ltot')
         poly.POSITIVE.add('Ltot')
+        g = it.model.module('path').globals
+        tol = []
+        for nm in ('LENGTH_ERROR', 'LENGTH_MIN_DEPTH'):
+            tol.append(it.eval(g[nm], Env(module=it.model.module('path'))) if nm in g else Rat.const(0))
+        p.attrs['_length_tol'] = tuple(tol)
+        it.call_hooks.setdefault('path.Line.length', lambda it2, a, k, segs=segs, ls=ls: ls[[i for i, x in enumerate(segs) if x is a[0]][0]] * Rat.sym('Ltot'))
     return p, segs
 
 
@@ -43,8 +52,7 @@ def run(ctx):
                       'and its pieces concatenate to the path', 3)
     ob = lambda r: Obligation(ctx, r)
     Tt = Rat.sym('T')
-    nocalc = {'call_hooks': {'path.Path._calc_lengths': lambda it, a, k: None,
-                             'path.Line.point': lambda it, a, k: ('pt', a[0], a[1])},
+    nocalc = {'call_hooks': {'path.Line.point': lambda it, a, k: ('pt', a[0], a[1])},
               'presign': [(Tt, '+'), (Tt - 1, '-'), (1 - Rat.sym('l0') - Rat.sym('l1'), '+')]}
 
     # ---------------------------------------------------------------- R05.1
